@@ -1,5 +1,5 @@
 CONSTANTS
-  Fuel = 64
+  Fuel = 32
 INIT TInit
 NEXT TNext
 CHECK_DEADLOCK FALSE
